@@ -81,7 +81,9 @@ class MetaRunner(object):
     def stop(self):
         """Stop all runners"""
         self._logger.debug("stop all runners")
-        for runner in self._runners.values():
+        # the runners are unpublished by the event loop thread when they fail
+        # or are interrupted: iterate over a snapshot
+        for runner in list(self._runners.values()):
             runner.stop()
 
     async def _manage_runners(self):
